@@ -91,6 +91,7 @@ type Exec struct {
 	pathSteps  int
 	pruneQueries, pruned int
 	symCache   map[int]map[string]bool
+	iptr       map[int]Value // interface payloads standing for interior pointers (see makeInterface)
 	specWF     []*Term // well-formedness facts of values loaded inside spec functions (see wfLoaded)
 	deadline   time.Time
 	cpuStart, cpuBudget time.Duration
@@ -1465,7 +1466,20 @@ func (x *Exec) makeInterface(st *State, v Value, ifaceT types.Type) Value {
 	switch v.T.Underlying().(type) {
 	case *types.Pointer, *types.Map, *types.Chan:
 		if v.P != nil && !(v.P.Kind == PObj && v.P.Off == 0) {
-			panic(unsupported("interior pointer converted to interface"))
+			// A pointer into the interior of an object (&o.field): the payload is a fresh
+			// identity and the pointer itself is remembered beside it, so a method call or a
+			// type assertion on this interface value gets the same pointer back. The identity
+			// is arbitrary (comparisons of such interface values are undetermined); merging
+			// two of them is not supported (path mode keeps them apart).
+			if !x.Opt.Paths {
+				panic(unsupported("interior pointer converted to interface (path mode only)"))
+			}
+			pay := c.Fresh("iptr", RefSort)
+			if x.iptr == nil {
+				x.iptr = map[int]Value{}
+			}
+			x.iptr[pay.ID] = v
+			return Value{T: ifaceT, L: []*Term{tag, pay}}
 		}
 		return Value{T: ifaceT, L: []*Term{tag, v.L[0]}}
 	}
@@ -1512,6 +1526,9 @@ func (x *Exec) boxFuncs(t types.Type) *FuncDecl {
 func (x *Exec) unbox(st *State, iv Value, t types.Type) Value {
 	switch t.Underlying().(type) {
 	case *types.Pointer, *types.Map, *types.Chan:
+		if v, ok := x.iptr[iv.L[1].ID]; ok && types.Identical(v.T, t) {
+			return v
+		}
 		return Value{T: t, L: []*Term{iv.L[1]}}
 	}
 	lay := LayoutOf(t)
